@@ -73,6 +73,11 @@ def judge(case, impl, model):
                 fails.append((f"bad-mapper-key-error-class:{name}",
                               f"{name} rejected non-field key(s) {bad} with {impl.get(w)}, not ValueError"))
         return msg, fails
+    if "ser_err" in impl:
+        fails.append((f"serialize-raises:{impl['ser_err']}",
+                      f"serializing a valid instance raised {impl['ser_err']}: {impl.get('ser_msg')} for instance "
+                      + json.dumps(case["kw"])[:200] + " mappers "
+                      + json.dumps([lv["mapper"] for lv in cd["levels"]])[:300]))
     if "doc" not in impl:
         return msg, fails
     real_doc = S.wire_to_py(impl["doc"])
